@@ -159,7 +159,7 @@ def run_naming(chk, tier, only=None, cfgs=None, release=False, tag="naming"):
         chk.evaluations += 1
         if viol:
             bad += 1
-            ops = " ".join(f"{st[0]}({','.join(str(x) for x in (st[1:] if len(st) < 5 else [st[1], st[3], st[4]]))})"
+            ops = " ".join(f"{st[0]}({','.join(str(x) for x in (st[1:] if len(st) < 5 else [st[1]] + st[3:]))})"
                            if st[0] != "Readout" else "Readout" for st in b["steps"])
             chk.violation(f"naming/units/values{' (release build)' if release else ''}: after {ops} (emit_zero={b['emit_zero']}): {viol}",
                           {"kind": "naming", "behaviour": b, "observed": o, "release": release}, key="C20:naming")
@@ -382,6 +382,13 @@ def explain(v, keys, classes=None):
             if val not in setof(win.get(r, {})):
                 what = f"gauge {kname(int(r[1:]))}" if r.startswith("g") else f"unit of {r[2:]}"
                 msgs.append(f"{what}: reported {val}, but the values it could hold during this readout are {setof(win.get(r, {}))}")
+    if "unitsafter" in fails:
+        since = dict(fn_items(st[3].get("since", {})))
+        for it in ev.get("items", []):
+            allowed = setof(since.get(it["name"], {}))
+            if allowed and it["unit"] not in allowed:
+                msgs.append(f"{it['name']}: this readout reports an update that started after the name had been described as {allowed}, "
+                            f"but writes the unit {it['unit']}")
     if "names" in fails:
         known = [(k["kind"], k["name"], sorted(map(tuple, k["labels"]))) for k in keys]
         for it in ev.get("items", []):
